@@ -18,7 +18,6 @@ import Manticore.Spec.Cifs
 import Manticore.Lemmas.SmbConforms
 import Manticore.Lemmas.SmbConformsExt
 import Manticore.Lemmas.SmbNested
-import Manticore.Lemmas.SmbHead
 namespace Manticore.C05
 open Manticore Manticore.SmbIR Manticore.Gen.SmbCommands
 
@@ -567,28 +566,5 @@ example :
     envAfterMarshal SmbCodecs.std c env = .ok env ∧
     Spec.Cifs.encodeOptional c env = some [2, 1, 0, 2, 0, 0, 0] := by
   decide +kernel
-
-/-! ## WriteRequest: proved non-conforming for every field value -/
-
-/-- **No WRITE request this `Marshal` produces is an MS-CIFS message** (static record: `non_conforming_commands`; C04
-    finding `field-ahead-of-blocks:WriteRequest`).  MS-CIFS 2.2.4.12.1 has `SMB_Parameters.WordCount = 0x05` as the
-    first byte of the command, the four parameter words behind it, and `BufferFormat 0x01, DataLength, Data` inside
-    `SMB_Data.Bytes`.  `WriteRequest.Marshal` appends `c.Data.Marshal()` to the command bytes ahead of the parameter
-    block: for **all** field values for which it succeeds, the first byte of its output is the string's buffer format
-    0x01 (followed by the two length bytes), so the output is no encoding that begins with the word count 5 — whatever
-    the words and bytes behind it.  (`Spec.Cifs.encode` stays silent on the command: its block assignment `blockOf` is
-    read off the emissions into the two blocks, and `Data` goes into neither.) -/
-theorem write_request_word_count_counterexample (env : Env) (bs : Bytes)
-    (h : encodeCmd Manticore.SmbCodecs.std cmd_WriteRequest env = .ok bs) :
-    bs.head? = some 0x01 ∧ ∀ rest : Bytes, bs ≠ 0x05 :: rest := by
-  obtain ⟨a, b, X, rfl⟩ := head_fmt1_shape cmd_WriteRequest rfl "Data" "FID" "CountOfBytesToWrite" "WriteOffsetInBytes"
-    "EstimateOfRemainingBytesToBeWritten" .le .le .le .le rfl env bs h
-  exact ⟨rfl, fun rest hr => by injection hr with h1 _; exact absurd h1 (by decide)⟩
-
-/-- the hypothesis is satisfiable: `WriteRequest{FID: 0x1234, CountOfBytesToWrite: 2, Data: "ab"}` is marshalled, string first -/
-example : encodeCmd Manticore.SmbCodecs.std cmd_WriteRequest
-    [("FID", .n 0x1234), ("CountOfBytesToWrite", .n 2), ("WriteOffsetInBytes", .n 0),
-     ("EstimateOfRemainingBytesToBeWritten", .n 0), ("Data", .t ([1, 2], [[0x61, 0x62]]))] =
-    .ok [0x01, 0x02, 0x00, 0x61, 0x62, 0x05, 0x34, 0x12, 0x02, 0x00, 0, 0, 0, 0, 0, 0, 0x00, 0x00] := by decide +kernel
 
 end Manticore.C05
